@@ -167,6 +167,15 @@ class World:
             if form != 'array':
                 self.probe('p_form_' + form)
             return v
+        if 'sym' in spec:
+            import sympy
+            v = spec.get('lit', 0)
+            self.probe('p_symbolic_argument')
+            if spec['sym'] == 'Symbol':
+                return sympy.Symbol('theta')
+            if isinstance(v, int) or float(v).is_integer():
+                return sympy.Integer(int(v))
+            return sympy.Float(float(v))
         if 'lit' in spec:
             v = spec['lit']
             if spec.get('tuple') and isinstance(v, list):
@@ -474,6 +483,8 @@ class World:
             elif is_sm_object(x):
                 if _length(x) > 12 or _malformed(x):
                     continue
+                if any(a.dtype == object for a in values.array_leaves(x)):
+                    continue            # symbolic values are not fed to further calls
             else:
                 continue
             if any(h.value is x for h in self.heap):
@@ -703,6 +714,7 @@ def gen_config(rng):
         'opt_rate': rng.choice([0.15, 0.4, 0.85]),
         'special_rate': rng.choice([0.0, 0.1, 0.1, 0.5]),
         'dup_rate': rng.choice([0.0, 0.1, 0.3]),
+        'sym_rate': rng.choice([0.0, 0.0, 0.0, 0.2]),
     }
 
 
@@ -726,7 +738,10 @@ def make_spec(kind, world, cfg, rng, recv_cls, recv_ref=None):
     if kind in values.SCALAR_KINDS:
         s = {'lit': values.gen_scalar(kind, rng.randrange(12 if rng.random() < cfg.get('special_rate', 0.0)
                                                          else 8))}
-        if kind in ('ang', 'sc', 's01') and rng.random() < 0.15:
+        if kind in ('ang', 'sc', 'int') and rng.random() < cfg.get('sym_rate', 0.0):
+            # SymPy numbers and symbols are accepted by the trigonometric builders
+            s['sym'] = rng.choice(['Number', 'Number', 'Symbol'])
+        elif kind in ('ang', 'sc', 's01') and rng.random() < 0.15:
             s['np'] = 'float'
         elif kind in ('int', 'posint') and rng.random() < 0.1:
             s['np'] = 'int'
@@ -1042,6 +1057,8 @@ def _simplify_spec(s):
         t = dict(s)
         t.pop('np')
         out.append(t)
+    if s.get('sym') == 'Symbol':
+        out.append(dict(s, sym='Number'))
     if 'list' in s and len(s['list']) > 1:
         for k in range(len(s['list'])):
             out.append(dict(s, list=s['list'][:k] + s['list'][k + 1:]))
